@@ -596,6 +596,35 @@ Qed.
 End Packed.
 
 (* ---------------------------------------------------------------- dist_fits_complete *)
+Lemma gen_small_complete_fits : forall dl codes n count sh0 lg0,
+  (length dl <= N.to_nat n)%nat -> Forall (fun y => (y <= 15)%nat) dl ->
+  (forall i, i < n -> cL codes i = N.of_nat (nth (N.to_nat i) dl 0%nat)) ->
+  (forall i, i < n -> cR codes i = rcode (nth (N.to_nat i) dl 0%nat) (ccode dl (N.to_nat i))) ->
+  codes_ok codes n count -> kraft 15 dl = 32768 ->
+  gerr (gen_small false sh0 lg0 codes n count n) = ENone.
+Proof.
+  intros dl codes n count sh0 lg0 HL HF HcL HcR OK HK.
+  rewrite gen_small_eq.
+  pose proof (gs_ct_spec codes n count OK) as Hct.
+  set (ct := gs_ct count) in *. cbv zeta.
+  destruct (N.eqb_spec (aget ct 16) 0) as [E16|E16]; [reflexivity|].
+  destruct (gs_sort_spec codes n count ct OK Hct) as (cl & ctt & Es & SO).
+  pose proof (gs_sort_pos codes n count ct cl ctt false OK Hct Es) as SP.
+  rewrite Es. cbv beta iota.
+  match goal with |- gerr (let '(_, _) := ?e in _) = _ => destruct e as [sh1 cs1] end.
+  rewrite (Hct 11), (Hct 16) by lia.
+  assert (Hsub : sub32 (ctv codes n 16) (ctv codes n 11) = llen codes n).
+  { unfold sub32, subw, llen.
+    pose proof (ctv_mono codes n 11 16 ltac:(lia) ltac:(lia)).
+    destruct (N.leb_spec (ctv codes n 11) (ctv codes n 16)); [reflexivity|lia]. }
+  rewrite Hsub. fold (lstart codes n).
+  pose proof (fit_loop dl codes n count cl HL HF HcL HcR OK SO SP ltac:(lia) small_fuel small_fuel_32 HK
+                sh1 lg0) as HFit.
+  destruct (gs_long small_fuel false sh1 lg0 codes cl n (lstart codes n) (llen codes n))
+    as [[[[sh2 lg2] cd2] lc2] pan2].
+  exact HFit.
+Qed.
+
 Theorem dist_fits_complete : forall dl, (length dl <= 30)%nat ->
   Forall (fun x => (x <= 15)%nat) dl -> complete 15 dl = true -> dist_fits dl = true.
 Proof.
@@ -608,35 +637,15 @@ Proof.
   pose proof (lens_in_canonical dl 286 30 HL HF) as Hin.
   rewrite (dist_fits_eq dl _ _ aempty aempty Hin Ho).
   destruct (dist_setCodes dl _ _ Hin Ho) as [_ C1].
-  set (huff' := fst (setCodes (lens_huff 286 dl) 286 30 (lens_count dl))) in *.
   destruct Hin as (_ & _ & _ & Hcount).
-  assert (Hcd : forall i, i < 30 -> aget (dist_codes huff') i = code_entry dl (N.to_nat i)).
+  assert (Hcd : forall i, i < 30 ->
+            aget (dist_codes (fst (setCodes (lens_huff 286 dl) 286 30 (lens_count dl)))) i
+            = code_entry dl (N.to_nat i)).
   { intros i Hi. unfold dist_codes. rewrite copy_codes.
     destruct (N.ltb_spec i 30); [|lia]. apply C1. exact Hi. }
-  destruct (codes_ok_of_lens dl (dist_codes huff') 30 (lens_count dl) HL HF ltac:(lia) Ho Hcd Hcount)
+  destruct (codes_ok_of_lens dl _ 30 (lens_count dl) HL HF ltac:(lia) Ho Hcd Hcount)
     as (OK & HcL & HcR).
-  set (codes := dist_codes huff') in *. set (count := lens_count dl) in *.
-  assert (HE : gerr (gen_small false aempty aempty codes 30 count 30) = ENone).
-  { rewrite gen_small_eq.
-    pose proof (gs_ct_spec codes 30 count OK) as Hct.
-    set (ct := gs_ct count) in *. cbv zeta.
-    destruct (N.eqb_spec (aget ct 16) 0) as [E16|E16]; [reflexivity|].
-    destruct (gs_sort_spec codes 30 count ct OK Hct) as (cl & ctt & Es & SO).
-    pose proof (gs_sort_pos codes 30 count ct cl ctt false OK Hct Es) as SP.
-    rewrite Es. cbv beta iota.
-    match goal with |- gerr (let '(_, _) := ?e in _) = _ => destruct e as [sh1 cs1] end.
-    rewrite (Hct 11), (Hct 16) by lia.
-    assert (Hsub : sub32 (ctv codes 30 16) (ctv codes 30 11) = llen codes 30).
-    { unfold sub32, subw, llen.
-      pose proof (ctv_mono codes 30 11 16 ltac:(lia) ltac:(lia)).
-      destruct (N.leb_spec (ctv codes 30 11) (ctv codes 30 16)); [reflexivity|lia]. }
-    rewrite Hsub. fold (lstart codes 30).
-    pose proof (fit_loop dl codes 30 count cl HL HF HcL HcR OK SO SP ltac:(lia) small_fuel small_fuel_32 HK
-                  sh1 aempty) as HFit.
-    destruct (gs_long small_fuel false sh1 aempty codes cl 30 (lstart codes 30) (llen codes 30))
-      as [[[[sh2 lg2] cd2] lc2] pan2].
-    exact HFit. }
-  rewrite HE. reflexivity.
+  rewrite (gen_small_complete_fits dl _ 30 _ aempty aempty HL HF HcL HcR OK HK). reflexivity.
 Qed.
 
 Print Assumptions dist_fits_complete.
